@@ -318,6 +318,8 @@ package graphql
 // nested spreads, visit every spread name, and key the memo tables by exactly the compared triple.
 
 //@ func overlappingFieldsCanBeMergedRule.findConflictsWithinSelectionSet
+//@   assigns class:M|, class:E|, class:graphql.ValidationContext, class:graphql.pairSet, class:graphql.fieldsAndFragmentNames, class:graphql.fieldDefPair, class:graphql.conflict
+//@   requires rule != nil && rule.comparedFieldsAndFragmentSet != nil && rule.comparedFieldsAndFragmentSet.data != nil && rule.comparedSet != nil
 //@   props C02
 //@   nosafety
 //@   at call collectConflictsWithin: assert arg2 == fieldsInfo
@@ -329,6 +331,8 @@ package graphql
 //@   loop 2 ensures k == atloop(2, k) + 1 && calls("collectConflictsBetweenFragments") == atloop(2, calls("collectConflictsBetweenFragments")) + 1
 
 //@ func overlappingFieldsCanBeMergedRule.collectConflictsBetweenFieldsAndFragment
+//@   assigns class:M|, class:E|, class:graphql.ValidationContext, class:graphql.pairSet, class:graphql.fieldsAndFragmentNames, class:graphql.fieldDefPair, class:graphql.conflict
+//@   requires rule != nil && rule.comparedFieldsAndFragmentSet != nil && rule.comparedFieldsAndFragmentSet.data != nil && rule.comparedSet != nil
 //@   props C02 C19
 //@   nosafety
 //@   at call Has: assert arg0 == rule.comparedFieldsAndFragmentSet && arg1 == fieldsInfo && arg2 == fragmentName && arg3 == areMutuallyExclusive
@@ -339,6 +343,8 @@ package graphql
 //@   at[C19] return: assert calls("collectConflictsBetween") <= 1 && (calls("collectConflictsBetween") == 1 ==> calls("Add") == 1)
 
 //@ func overlappingFieldsCanBeMergedRule.collectConflictsBetweenFragments
+//@   assigns class:M|, class:E|, class:graphql.ValidationContext, class:graphql.pairSet, class:graphql.fieldsAndFragmentNames, class:graphql.fieldDefPair, class:graphql.conflict
+//@   requires rule != nil && rule.comparedFieldsAndFragmentSet != nil && rule.comparedFieldsAndFragmentSet.data != nil && rule.comparedSet != nil
 //@   props C02 C19
 //@   nosafety
 //@   at call Has: assert arg0 == rule.comparedSet && arg1 == fragmentName1 && arg2 == fragmentName2 && arg3 == areMutuallyExclusive
@@ -351,6 +357,8 @@ package graphql
 //@   at[C19] return: assert calls("collectConflictsBetween") <= 1 && (calls("collectConflictsBetween") == 1 ==> calls("Add") == 1)
 
 //@ func overlappingFieldsCanBeMergedRule.findConflictsBetweenSubSelectionSets
+//@   assigns class:M|, class:E|, class:graphql.ValidationContext, class:graphql.pairSet, class:graphql.fieldsAndFragmentNames, class:graphql.fieldDefPair, class:graphql.conflict
+//@   requires rule != nil && rule.comparedFieldsAndFragmentSet != nil && rule.comparedFieldsAndFragmentSet.data != nil && rule.comparedSet != nil
 //@   props C02
 //@   nosafety
 //@   at call getFieldsAndFragmentNames#1: assert arg1 == parentType1 && arg2 == selectionSet1
@@ -362,6 +370,23 @@ package graphql
 //@   loop 1 ensures calls("collectConflictsBetweenFieldsAndFragment") == atloop(1, calls("collectConflictsBetweenFieldsAndFragment")) + 1
 //@   loop 2 ensures calls("collectConflictsBetweenFieldsAndFragment") == atloop(2, calls("collectConflictsBetweenFieldsAndFragment")) + 1
 //@   loop 4 ensures calls("collectConflictsBetweenFragments") == atloop(4, calls("collectConflictsBetweenFragments")) + 1
+
+// assumed frames of the helpers the drivers call (bodies not verified here)
+//@ func overlappingFieldsCanBeMergedRule.collectConflictsBetween
+//@   trusted
+//@   assigns class:M|, class:E|, class:graphql.ValidationContext, class:graphql.pairSet, class:graphql.fieldsAndFragmentNames, class:graphql.fieldDefPair, class:graphql.conflict
+//@ func overlappingFieldsCanBeMergedRule.collectConflictsWithin
+//@   trusted
+//@   assigns class:M|, class:E|, class:graphql.ValidationContext, class:graphql.pairSet, class:graphql.fieldsAndFragmentNames, class:graphql.fieldDefPair, class:graphql.conflict
+//@ func overlappingFieldsCanBeMergedRule.getFieldsAndFragmentNames
+//@   trusted
+//@   assigns class:M|, class:E|, class:graphql.ValidationContext, class:graphql.pairSet, class:graphql.fieldsAndFragmentNames, class:graphql.fieldDefPair, class:graphql.conflict
+//@ func overlappingFieldsCanBeMergedRule.getReferencedFieldsAndFragmentNames
+//@   trusted
+//@   assigns class:M|, class:E|, class:graphql.ValidationContext, class:graphql.pairSet, class:graphql.fieldsAndFragmentNames, class:graphql.fieldDefPair, class:graphql.conflict
+//@ func ValidationContext.Fragment
+//@   trusted
+//@   assigns class:M|, class:E|, class:graphql.ValidationContext, class:graphql.pairSet, class:graphql.fieldsAndFragmentNames, class:graphql.fieldDefPair, class:graphql.conflict
 
 // ---- memo tables of the overlapping-fields rule (C02 soundness of memo hits, C19 memo effectiveness) ----
 
